@@ -27,9 +27,13 @@ def snap(v):
 
 
 def make_device(kind, variant):
-    """variant 0/1: two simulated inverters with different register contents."""
+    """variant 0/1: two simulated inverters with different register contents.  Kinds ending in '=eq': every register the
+    kind does not set explicitly holds the SAME word (4) on both inverters, whatever their family - equal raw values meet
+    different decoders."""
+    eq = kind.endswith('=eq')
+    kind = kind.split('=')[0]
     if kind.startswith('ET'):
-        d = ModbusDevice(0xF7, fill=(lambda a: (a * 31 + 7) % 5000) if variant == 0 else (lambda a: (a * 17 + 1234) % 7000))
+        d = ModbusDevice(0xF7, fill=(lambda a: 4) if eq else (lambda a: (a * 31 + 7) % 5000) if variant == 0 else (lambda a: (a * 17 + 1234) % 7000))
         et_device_info(d, serial=b'9010KETT000W0000' if kind == 'ET745' else b'9010KETU000W0000', rated=10000)
         d.rf.set(35184, 2)
         d.rf.set(47000, 3)
@@ -56,7 +60,7 @@ def make_device(kind, variant):
             d.rf.setbytes(47547, bytes([99] * 12))    # stored group 1 is undecodable
         return 'ET', d
     if kind.startswith('DT'):
-        d = ModbusDevice(0x7F, fill=(lambda a: (a * 13 + 5) % 3000) if variant == 0 else (lambda a: (a * 29 + 77) % 4000))
+        d = ModbusDevice(0x7F, fill=(lambda a: 4) if eq else (lambda a: (a * 13 + 5) % 3000) if variant == 0 else (lambda a: (a * 29 + 77) % 4000))
         dt_device_info(d, serial=b'9003KDSN000W0000' if kind == 'DT1' else b'9010KDTU000W0000')
         clock = bytes([26, 10, 2, 12, 34, 56]) if variant == 0 else bytes(6)
         d.rf.setbytes(30100, clock)
@@ -66,7 +70,7 @@ def make_device(kind, variant):
         return 'DT', d
     d = EsDevice(firmware=b'2222E' if kind == 'ESv2' else b'1414E')
     for i in range(len(d.runtime)):
-        d.runtime[i] = (i * (7 if variant == 0 else 11) + 3) & 0x7F
+        d.runtime[i] = ((i * (7 if variant == 0 else 11) + 3) & 0x7F) if not eq else (4 if i % 2 else 0)
     d.settings[66:68] = b'\x00\x03'
     d.rf.setbytes(1793, ECO_V1_BASE[1 + variant])
     d.rf.setbytes(47547, SCHED_BASE[1] if variant == 0 else SCHED_BASE[2])
@@ -275,7 +279,8 @@ def job(j):
 
 
 PAIRS = [('ET', 'ET'), ('ET745', 'ET'), ('ETbad', 'ET745'), ('ETnobat', 'ET'), ('ETv1', 'ET'), ('ETrej', 'ET'),
-         ('DT', 'DT1'), ('DTrej', 'DT'), ('DT1', 'DT1'), ('ES', 'ESv2'), ('ETfrag', 'ETfrag'), ('ETfrag', 'DT'), ('ET', 'ETtcp'), ('ET', 'ETaddr'), ('ET', 'ESv2'), ('ET', 'DT'), ('ES', 'ES'), ('ETv1', 'ES'), ('ET745', 'ESv2')]
+         ('DT', 'DT1'), ('DTrej', 'DT'), ('DT1', 'DT1'), ('ES', 'ESv2'), ('ETfrag', 'ETfrag'), ('ETfrag', 'DT'), ('ET', 'ETtcp'), ('ET', 'ETaddr'), ('ET', 'ESv2'), ('ET', 'DT'), ('ES', 'ES'), ('ETv1', 'ES'), ('ET745', 'ESv2'),
+         ('ET=eq', 'DT=eq'), ('DT=eq', 'ET=eq'), ('ET=eq', 'ES=eq'), ('ES=eq', 'DT=eq'), ('ET=eq', 'ET745=eq')]
 
 
 def run(tier, seed, rep):
